@@ -199,6 +199,28 @@ type SDefaultPtrs struct {
 	Plain *string  `vgirpc:"plain"`
 }
 
+// Defaults on the other integer / float widths and on tagged strings: the
+// library accepts the declaration (and advertises the default in __describe__).
+type SDefaultsWide struct {
+	I32  int32   `vgirpc:"i32,nullable,default=5"`
+	I8   *int8   `vgirpc:"i8,default=-3"`
+	U64  *uint64 `vgirpc:"u64,default=18446744073709551615"`
+	U16  uint16  `vgirpc:"u16,nullable,default=7"`
+	F32  float32 `vgirpc:"f32,nullable,default=1.5"`
+	T32  int64   `vgirpc:"t32,int32,nullable,default=9"`
+	En   Status  `vgirpc:"en,enum,nullable,default=ACTIVE"`
+	LS   *string `vgirpc:"ls,large_string,default=big"`
+	Keep string  `vgirpc:"keep"`
+}
+
+// Declared defaults the harness does not judge (no documented text form /
+// not parsable for the kind): outcomes are only counted.
+type SDefaultsOdd struct {
+	Raw []byte `vgirpc:"raw,nullable,default=xy"`
+	Bad int64  `vgirpc:"bad,nullable,default=abc"`
+	N   int64  `vgirpc:"n"`
+}
+
 // SPoint is an ArrowSerializable carried as IPC bytes (`binary`).
 type SPoint struct {
 	X float64 `arrow:"x"`
@@ -291,7 +313,7 @@ func StaticFamily(withDefaults bool) []StaticType {
 		st[SWithPoint]("SWithPoint"),
 	}
 	if withDefaults {
-		out = append(out, st[SDefaults]("SDefaults"), st[SDefaultPtrs]("SDefaultPtrs"))
+		out = append(out, st[SDefaults]("SDefaults"), st[SDefaultPtrs]("SDefaultPtrs"), st[SDefaultsWide]("SDefaultsWide"), st[SDefaultsOdd]("SDefaultsOdd"))
 	}
 	return out
 }
